@@ -137,7 +137,14 @@ def consumer_accepts(fx, stage, out, d):
     tmp = pathlib.Path(d) / 'tmp'
     try:
         if stage == 'stats':
-            pipeline.run_refmarkers(out, pathlib.Path(d) / 'consumer.h5', tmp, n_processors=1)
+            # the next stage's library entry point takes the taxonomy as an argument: hand it the taxonomy
+            # of the intact statistics file, so that a structurally complete but partial file is not
+            # "rejected" merely because the tree is appended last
+            from cell_type_mapper.diff_exp.markers import find_markers_for_all_taxonomy_pairs
+            with quiet():
+                find_markers_for_all_taxonomy_pairs(
+                    precomputed_stats_path=out, taxonomy_tree=pipeline.tree_of_stats(b / 'stats.h5'),
+                    output_path=pathlib.Path(d) / 'consumer.h5', n_processors=1, tmp_dir=str(tmp), max_gb=1, n_valid=5)
         elif stage in ('refm', 'pm2m'):
             from cell_type_mapper.marker_selection.marker_array import MarkerGeneArray
             with quiet():
